@@ -4,7 +4,7 @@ from props import c05
 
 ID = "C12"
 HARNESS = "c12"
-N_CASES = {"quick": 60, "thorough": 500}
+N_CASES = {"quick": 100, "thorough": 500}
 N_SEARCH = {"quick": 1, "thorough": 1}
 SHARD = 12
 HAS_MODEL_OUT = True
